@@ -24,6 +24,7 @@ def std(pkg, qprop, tprop, fuzz=None, grid_shards_thorough=1, level="exploration
 
 
 PROPS = {
+    "C18": std("c18", 5000, 50000, extra=dict(engine="rapid stateful (model-based histories with injected faults)")),
     "C16": std("c16", 5000, 50000, fuzz=45),
     "C17": std("c17", 5000, 50000, fuzz=45),
     "C09": std("c09", 20000, 200000, fuzz=45),
